@@ -216,13 +216,16 @@ def run_case(case, obs):
         s, d = a + b, a - b
         with np.errstate(all='ignore'):
             # values compared in float64 (dtype promotion of python-vs-numpy scalars is numpy's business)
-            def close(g, e):
-                g, e = np.asarray(g, dtype=float), np.asarray(e, dtype=float)
-                return g.shape == e.shape and bool(np.all(np.abs(g - e) <= 1e-6 * (1 + np.abs(e))))
             F = lambda v: np.asarray(v, dtype=float)
-            obs.check(close(s.x, F(a_x) + F(b_x)) and close(s.y, F(a_y) + F(b_y)), 'add-not-componentwise',
+            e32 = float(np.finfo(np.float32).eps)
+
+            def close(g, e, mag):
+                g, e = np.asarray(g, dtype=float), np.asarray(e, dtype=float)
+                return g.shape == e.shape and bool(np.all(np.abs(g - e) <= 4 * e32 * mag))
+            mx, my = np.abs(F(a_x)) + np.abs(F(b_x)), np.abs(F(a_y)) + np.abs(F(b_y))
+            obs.check(close(s.x, F(a_x) + F(b_x), mx) and close(s.y, F(a_y) + F(b_y), my), 'add-not-componentwise',
                       f'a+b differs from (ax+bx, ay+by) for shapes {sx},{sy}', 'addsub')
-            obs.check(close(d.x, F(a_x) - F(b_x)) and close(d.y, F(a_y) - F(b_y)), 'sub-not-componentwise',
+            obs.check(close(d.x, F(a_x) - F(b_x), mx) and close(d.y, F(a_y) - F(b_y), my), 'sub-not-componentwise',
                       f'a-b differs from (ax-bx, ay-by) for shapes {sx},{sy}', 'addsub')
             back = (a + b) - b
             ax_b = np.broadcast_arrays(a_x, b_x)[0]
@@ -250,8 +253,9 @@ def run_case(case, obs):
         dx = np.asarray(b_x, dtype=float) - np.asarray(a_x, dtype=float)
         dy = np.asarray(b_y, dtype=float) - np.asarray(a_y, dtype=float)
         exp = np.sqrt(dx * dx + dy * dy)
+        mag = np.abs(np.asarray(a_x, dtype=float)) + np.abs(np.asarray(b_x, dtype=float)) + np.abs(np.asarray(a_y, dtype=float)) + np.abs(np.asarray(b_y, dtype=float))
         ok = np.shape(sep) == np.shape(exp) and bool(np.all(np.abs(np.asarray(sep) - exp) <= 1e-12 * (1 + np.abs(exp))
-                                                            + 4 * np.finfo(np.float32).eps * np.abs(exp) * ('float32' == case['dt2'])))
+                                                            + 8 * np.finfo(np.float32).eps * mag * ('float32' == case['dt2'])))
         obs.check(ok, 'separation-not-euclidean', f'separation differs from sqrt(dx^2+dy^2) for shapes {sx},{sy}', 'separation')
         obs.check(arr_same(np.asarray(b.separation(a)), np.asarray(sep)), 'separation-not-symmetric', 'sep(a,b) != sep(b,a)', 'separation')
         z = a.separation(a)
